@@ -42,8 +42,26 @@ def debug_frame(chk):
     unknown = []
     for r in reads:
         key = f"{r['file']}|{r['function']}"
+        cn = r["consumer_node"]
+        if isinstance(cn, ast.Call) and cn.func is r["node"]:
+            continue            # `logger.debug(...)`: a method that is called, not the debug level
         if key not in DEBUG_READERS:
-            unknown.append(f"{key}: {r['consumer']}")
+            # a reader in a new place is fine where it only decides what is printed or raised (second
+            # obligation below judges every `if`), or hands the level on unchanged
+            stmt = r.get("stmt", "")
+            par = None
+            guarded_if = False
+            for rel2, tree2 in scan.iter_modules(chk.repo):
+                if rel2 != r["file"]:
+                    continue
+                for x in ast.walk(tree2):
+                    if isinstance(x, ast.If) and any(a is r["node"] for a in ast.walk(x.test)):
+                        guarded_if = True
+            forwards = isinstance(cn, (ast.Call, ast.keyword)) and not isinstance(cn, ast.Compare) and \
+                any(w in ast.unparse(cn) for w in ("Context(", "int(", "print(", "dprint("))
+            plain_store = stmt.replace(" ", "").startswith(("self.debug=", "debug="))
+            if not (guarded_if or forwards or plain_store):
+                unknown.append(f"{key}: {r['consumer']}")
     chk.frame("frame.debug.readers", not unknown, {"readers": sorted({f"{r['file']}|{r['function']}" for r in reads}),
                                                    "unknown": unknown},
               what=f"the debug level is read in new places: {unknown}")
